@@ -164,7 +164,7 @@ def plan_for(rng, i):
 
 def wild_mutation(rng, gen, old):
     """unlabelled: several edits without site discipline plus declarations that repeat a name, an
-    enum number or an exception id (the parser accepts those); judged by the model only"""
+    enum number (the parser accepts those) or add an exception; judged by the model only"""
     plan = [rng.choice(idl.BREAKING_EDITS + idl.COMPATIBLE_EDITS) for _ in range(rng.randrange(2, 7))]
     new, applied = idl.apply_edits(rng, gen, old, plan)
     for side in (old, new) if rng.random() < 0.5 else (new,):
@@ -184,6 +184,8 @@ def wild_mutation(rng, gen, old):
                     if me["excs"] and gen.visible(side, "main")["exception"]:
                         e = dict(rng.choice(me["excs"]))
                         e["name"] = gen.fresh("de")
+                        # a repeated exception id is rejected by validation since the C11 repair f1aae0f
+                        e["id"] = max(x["id"] for x in me["excs"]) + 1
                         e["type"] = rng.choice(gen.visible(side, "main")["exception"])
                         me["excs"].insert(rng.randrange(len(me["excs"]) + 1), e)
                         break
